@@ -392,6 +392,43 @@ class _ParquetWriter:
         self.open = False
 
 
+class _ArrowTable:
+    """pyarrow.Table over a VFS table (the subset mokapot could reasonably use)."""
+
+    def __init__(self, df):
+        self.df = df.reset_index(drop=True)
+
+    @property
+    def num_rows(self):
+        return len(self.df)
+
+    @property
+    def column_names(self):
+        return list(self.df._c)
+
+    def __len__(self):
+        return len(self.df)
+
+    def to_pandas(self):
+        return self.df.copy()
+
+    def to_pylist(self):
+        return self.df.to_dict(orient="records")
+
+    def slice(self, offset=0, length=None):
+        offset = int(offset)
+        stop = len(self.df) if length is None else offset + int(length)
+        return _ArrowTable(self.df.iloc[offset:stop])
+
+    def to_batches(self, max_chunksize=None):
+        n = len(self.df)
+        bs = n if max_chunksize is None else int(max_chunksize)
+        return [_Batch(self.df.iloc[p:p + bs]) for p in range(0, n, max(bs, 1))]
+
+    def __getattr__(self, name):
+        raise Unsupported("pyarrow Table.%s is not modelled" % name)
+
+
 class pq_stub:
     ParquetFile = _ParquetFile
     ParquetWriter = _ParquetWriter
@@ -404,9 +441,50 @@ class pq_stub:
                 if c not in df._c:
                     raise KeyError(c)
             df = df[list(columns)]  # pyarrow read_table returns the requested order
-        out = df.copy().reset_index(drop=True)
-        out.to_pandas = lambda: out
-        return out
+        return _ArrowTable(df.copy())
+
+
+class _Scanner:
+    def __init__(self, path, columns, batch_size):
+        self.path, self.columns, self.batch_size = path, columns, batch_size
+
+    def to_batches(self):
+        """pyarrow.dataset scanner: batches never cross a row-group border, so batches shorter than
+        batch_size can appear anywhere (row-group layout unknown here: arbitrary short batches)."""
+        df = _table(self.path)
+        if self.columns is not None:
+            df = df[list(self.columns)]
+        df = df.copy().reset_index(drop=True)
+        n, bs, pos = len(df), int(self.batch_size), 0
+        while pos < n:
+            ln = min(bs, n - pos)
+            if ln > 1:
+                ln = int(core.Ctx.cur.fresh_int("scan_batch_len", 1, ln))
+            yield _Batch(df.iloc[pos:pos + ln])
+            pos += ln
+
+    def to_table(self):
+        df = _table(self.path)
+        return _ArrowTable(df[list(self.columns)] if self.columns is not None else df)
+
+
+class _Dataset:
+    def __init__(self, path, format=None, **kw):
+        self.path = path
+
+    def scanner(self, columns=None, batch_size=131072, **kw):
+        return _Scanner(self.path, columns, batch_size)
+
+    def to_batches(self, columns=None, batch_size=131072, **kw):
+        return _Scanner(self.path, columns, batch_size).to_batches()
+
+    def to_table(self, columns=None, **kw):
+        return _Scanner(self.path, columns, 0).to_table()
+
+
+class ds_stub:
+    """pyarrow.dataset"""
+    dataset = _Dataset
 
 
 class _PaTable:
